@@ -79,6 +79,8 @@ def body_bytes(b):
         return b""
     if t == "raw":
         return b["s"].encode("utf-8")
+    if t == "hex":
+        return bytes.fromhex(b["h"])
     if t == "bin":
         tags = b"SPDX-FileCopyrightText: 1999 Inside Binary\nSPDX-License-Identifier: LicenseRef-inside-binary\n" if b.get("tags") else b""
         return b"\x00\x01\x02binary\xff\xfe\x00" + tags + b"\x00\x03"
@@ -208,6 +210,7 @@ def truth(case):
         return {"status": "duplicate"}
     files_abs = []
     per_file = {}
+    per_exprs = {}
     for p in covered:
         d, name = os.path.dirname(p), os.path.basename(p)
         anc = [""]
@@ -270,10 +273,12 @@ def truth(case):
                 out.append(["L", label, keys])
                 exprs.append(keys)
         per_file[p] = sorted(out, key=json.dumps)
+        per_exprs[p] = [json.loads(v) for k, s, v in items if k != "C"]     # the EXPR trees themselves (streams spdx-e2e)
         files_abs.append((p, True, cop, exprs))
     exp = rc.expected_of(files_abs, lic)
     exp["status"] = "ok"
     exp["files"] = per_file
+    exp["exprs"] = per_exprs
     exp["violated"] = rc.clauses_of(files_abs, lic)
     exp["lic_names"] = lic
     return exp
